@@ -183,7 +183,7 @@ PROPS = {
     "C05": _sched("Lean 4 theorems: Work::run reports success only with no failed task and nothing pending; with the invariant, nothing pending means every build is Unknown, Done or Failed; a Failed producer blocks the readiness gate of its dependents; the want phase cannot revive a Failed build. Tied to the real scheduler by trace equality; monitors failuresContained, budgetRespected, exitOk, stopsOnInterrupt evaluated on the implementation's trace.",
                   ["C05"], ["failuresContained", "budgetRespected", "exitOk", "stopsOnInterrupt", "traceSpec", "budgetSpec", "keepsGoing"]),
     "C06": _sched("Lean 4 theorems: an error while collecting the wanted set (dependency cycle) returns before the run loop, so nothing starts; the diagnostic has the documented shape; readiness never looks at validation inputs; inherited Done states survive the second want phase; the run loops are total functions. Termination without the BUG outcome and 'all wanted Done when nothing fails' are so far checked by the monitor `decided`/`exitOk` on every implementation trace (cyclic, validation-cyclic and acyclic graphs) and by trace equality with the model; the progress-measure proof is in progress.",
-                  ["C06"], ["decided", "exitOk", "cycleSound", "cycleComplete"]),
+                  ["C06"], ["decided", "exitOk", "cycleSound", "cycleComplete", "graphHyps", "traceSpec"]),
     "C18": _sched("Lean 4 theorems: target lookup is invariant under spellings with equal canonical form; an unknown name is rejected (outside restat mode) before later targets are considered; the manifest named as target is skipped; wanting more targets only turns Unknown builds into Want/Ready. Tied to the real run::build by trace equality (targets / defaults / all-files choice is part of the model); monitors onlyWanted and closureComplete (the set of builds that left Unknown = closure over ordering+validation producers of the resolved targets) evaluated on the implementation's trace.",
                   ["C18"], ["onlyWanted", "closureComplete"]),
     "C19": _sched("Lean 4 theorems: initially and across every state transition each UI count equals the number of non-phony builds in that state and `pending` the number of Want/Ready/Queued/Running builds (so the isize/usize casts never wrap: all counts in [0, #builds]); the want phase changes no finished count nor tasks_run. Tied to the real scheduler by trace equality including the counts of every transition; monitors countsOk (per update: counts = recomputed from transitions, running = started-finished, done/failed monotone) and summaryOk (ran N = successful commands) evaluated on the implementation's trace.",
@@ -253,3 +253,34 @@ PROPS["C18"]["monitors"] = PROPS["C18"]["monitors"] + ["wantedFromNewText", "run
 PROPS["C18"]["rule"] += " || names resolved against the reloaded manifest: " + HIST_RULE
 PROPS["C18"]["claim"] += (" Command-line names are resolved against the RELOADED manifest: carried by the history mode (manifest generators "
     "whose output renumbers or adds files), monitor wantedFromNewText.")
+
+
+# --- claims: whole-invocation theorems added after the first round -------------------------------------
+_TRACE = (" WHOLE INVOCATIONS: Lemmas/SchedTrace + SchedBuild prove that EVERY trace the model of run::build can produce "
+          "(any graph whose producers are builds, any arguments, any environment behaviour, any outcome) satisfies the decidable "
+          "per-event specification TraceSpec.okTrace (legal transitions only, exact counts at every transition and update, limits "
+          "respected when a command enters Running, the gate passed when a build becomes Ready); Lemmas/TraceFacts derives the "
+          "property-level statements from okTrace alone, so they hold equally of every implementation trace on which the monitor "
+          "traceSpec (the same definition, evaluated by the driver) is true.")
+PROPS["C01"]["claim"] += _TRACE + (" For C01: whenever a command starts, every transitive producer of its ordering inputs is Done and it "
+    "was not started before in this Work (starts_after_deps_and_once); validation edges are not ancestors.")
+PROPS["C04"]["claim"] += _TRACE + (" For C04: in every state any invocation passes through at most -j builds are Running and at most depth "
+    "of each pool with depth > 0 (limits_at_every_instant).")
+PROPS["C05"]["claim"] += _TRACE + (" For C05: once a step has Failed no step that transitively needs it is started later in the same Work "
+    "(failure_contained); accounting (Lemmas/SchedAcct): every start happened with fewer failures than the -k budget and before any "
+    "interruption (budget_respected, monitor budgetSpec), success is reported only with no failed or interrupted command "
+    "(success_means_no_failure); monitor keepsGoing: a failure within budget leaves no wanted step that is not downstream of a "
+    "failure unfinished.")
+PROPS["C19"]["claim"] += _TRACE + (" For C19: the counts of every update and every transition are exact (counts_exact_at_every_update / "
+    "_transition), finished builds stay finished (finished_never_decrease), and `ran N tasks` reports exactly the number of commands "
+    "that completed successfully, a reload happening exactly after a manifest phase with N > 0 (ran_n_tasks, reload_after_commands).")
+PROPS["C06"]["claim"] += (" NEVER THE INTERNAL ERROR: for every graph without an ordering cycle and with consistent cross references "
+    "(hypotheses GraphOK/DepsOK, decided on every real graph by monitor graphHyps), -j >= 1 and every environment behaviour, "
+    "run::build never ends in `BUG: no work to do and runner not running` (never_internal_error; Lemmas/SchedProgress carries the "
+    "converse bookkeeping invariant PInv through the want phase and Work::run and refutes the stalled state by descending the "
+    "producer order); and when it reports success every wanted build is Done (success_means_all_up_to_date).")
+PROPS["C13"]["claim"] = ("Lean 4 theorems about an executable byte-level model of canonicalize_path (two cursors, offset stack): FUNCTIONAL "
+    "CORRECTNESS for every non-empty path of any length: canon s = render (denote s) (Lemmas/Canon: the loop is simulated by a fold "
+    "over the path's components), hence idempotent, same denotation, normal form (no '.', empty, or 'name/..' components; leading "
+    "'..' and the root kept; a trailing separator is significant), and two spellings get the same canonical bytes iff they denote "
+    "the same location; never lengthens; the empty path is the only refused input. ") + PROPS["C13"]["claim"]
